@@ -49,10 +49,27 @@ fn pat(dir: u8, p: u64) -> u8 {
     let x = (p as u32).wrapping_mul(2_654_435_761).rotate_left(7) ^ (p >> 9) as u32 ^ u32::from(dir) * 0x5bd1;
     (x >> 13) as u8
 }
-fn fill(dir: u8, off: u64, buf: &mut [u8]) {
-    for (i, b) in buf.iter_mut().enumerate() {
-        *b = pat(dir, off + i as u64);
+/// the pattern of a direction, computed once (byte loops are slow in a debug build)
+fn pattern(dir: u8, upto: u64) -> &'static [u8] {
+    static PATS: std::sync::Mutex<[Vec<u8>; 4]> = std::sync::Mutex::new([Vec::new(), Vec::new(), Vec::new(), Vec::new()]);
+    let mut g = PATS.lock().unwrap();
+    let v = &mut g[dir as usize];
+    if (v.len() as u64) < upto {
+        let want = (upto as usize).next_power_of_two().max(1 << 16);
+        let mut nv = Vec::with_capacity(want);
+        nv.extend_from_slice(v);
+        for p in v.len()..want {
+            nv.push(pat(dir, p as u64));
+        }
+        // slices of the old vector may still be in use by the other endpoint's thread: leak it
+        std::mem::forget(std::mem::replace(v, nv));
     }
+    let sl: &[u8] = &v[..];
+    unsafe { std::slice::from_raw_parts(sl.as_ptr(), sl.len()) }
+}
+fn fill(dir: u8, off: u64, buf: &mut [u8]) {
+    let p = pattern(dir, off + buf.len() as u64);
+    buf.copy_from_slice(&p[off as usize..off as usize + buf.len()]);
 }
 
 struct Log {
@@ -163,18 +180,19 @@ fn read_chunks(log: &mut Log, s: &mut Stream, dir: u8, n: Option<u64>, chunks: &
         }
         let want = chunks[i % chunks.len()].max(1) as usize;
         i += 1;
-        buf.clear();
-        buf.resize(want, 0xEE);
+        if buf.len() != want {
+            // (no re-poisoning per call: a 2 MiB buffer cleared for every 4 KiB read dominated the run time)
+            buf.resize(want, 0xEE);
+        }
         let st = log.start();
         let r = guarded(|| s.read(&mut buf, to));
         let (class, errno) = res_of(&r);
         let k = if let Ok(Ok(k)) = &r { *k } else { 0 };
         let mut bad: i64 = -1;
-        for (j, b) in buf[..k.min(want)].iter().enumerate() {
-            if *b != pat(dir, off + j as u64) {
-                bad = j as i64;
-                break;
-            }
+        let kk = k.min(want);
+        let p = pattern(dir, off + kk as u64);
+        if buf[..kk] != p[off as usize..off as usize + kk] {
+            bad = buf[..kk].iter().zip(&p[off as usize..]).position(|(a, b)| a != b).map_or(-1, |j| j as i64);
         }
         let res = if class == "ok" && k == 0 { "eof" } else { class };
         log.done(if to.is_some() { "read_to" } else { "read" }, st,
@@ -183,13 +201,13 @@ fn read_chunks(log: &mut Log, s: &mut Stream, dir: u8, n: Option<u64>, chunks: &
         match res {
             "ok" => off += k as u64,
             "timeout" => {
-                if to.is_some_and(|d| d < Duration::from_micros(500)) {
-                    std::thread::sleep(Duration::from_micros(300));
+                // a zero / tiny limit would otherwise spin thousands of logged calls per second
+                if to.is_some_and(|d| d < Duration::from_micros(2000)) {
+                    std::thread::sleep(Duration::from_millis(2));
                 }
-                // keep reading: only the watchdog of the whole plan bounds this
-                if began.elapsed() > Duration::from_secs(20) {
-                    return false;
-                }
+                // keep reading: only the no-progress watchdog bounds this (4 MiB through 4 KiB TCP
+                // buffers legitimately takes 15 s: Nagle + delayed ACK give ~6 KiB per 20 ms)
+                let _ = began;
             }
             "eof" => return n.is_none(),
             _ => return false,
